@@ -25,7 +25,7 @@ type Line struct {
 	Hdr     bool            `json:"hdr,omitempty"`
 	S       int             `json:"S,omitempty"`
 	Samples [][2]int        `json:"samples,omitempty"`
-	P       latgeo.LPath    `json:"p,omitempty"`
+	P       json.RawMessage `json:"p,omitempty"`
 	Wp      []int           `json:"wp,omitempty"`
 	R0      []int           `json:"r0,omitempty"`
 	R1      []int           `json:"r1,omitempty"`
@@ -39,6 +39,7 @@ type Scenario struct {
 	S       int             `json:"S"`
 	Samples [][2]int        `json:"samples"`
 	P       latgeo.LPath    `json:"p"`
+	CP      latgeo.CPath    `json:"cp,omitempty"` // curved scenario (spec/CurvedOps.tla): cubic contours instead of P
 	Open    bool            `json:"open"` // leave the contours open (Settle closes them implicitly)
 	Det     bool            `json:"det"`  // deterministic (exhaustive) space: known findings are recorded per input
 	Emb     latgeo.Emb      `json:"emb"`
@@ -63,6 +64,9 @@ func (s *Scenario) embClass() string {
 }
 
 func (s *Scenario) tag() string {
+	if s.CP != nil {
+		return "curved"
+	}
 	switch {
 	case s.F["pdeg"]:
 		return "degenerate" + s.embClass()
@@ -74,7 +78,17 @@ func (s *Scenario) tag() string {
 	return "general" + s.embClass()
 }
 
+func (s *Scenario) svg() string {
+	if s.CP != nil {
+		return s.CP.SVG()
+	}
+	return s.P.SVG()
+}
+
 func build(s *Scenario) *canvas.Path {
+	if s.CP != nil {
+		return latgeo.BuildCurved(s.CP, s.Emb)
+	}
 	if !s.Open {
 		return latgeo.Build(s.P, s.Emb)
 	}
@@ -149,11 +163,11 @@ func exec(s *Scenario, guard bool) (ms []core.Mismatch) {
 		name := ruleNames[ri]
 		if kind != "" {
 			ms = append(ms, core.Mismatch{Signature: kind + ":" + latgeo.PanicClass(msg) + "+" + s.tag(),
-				Detail: fmt.Sprintf("Settle(%s) %s: P=%s open=%v emb=%s: %v", name, kind, s.P.SVG(), s.Open, s.Emb.Name, msg)})
+				Detail: fmt.Sprintf("Settle(%s) %s: P=%s open=%v emb=%s: %v", name, kind, s.svg(), s.Open, s.Emb.Name, msg)})
 			continue
 		}
 		if !equalData(before, p.Data()) {
-			ms = append(ms, core.Mismatch{Signature: "receiver-mutated", Detail: fmt.Sprintf("Settle(%s) changed its receiver: P=%s open=%v", name, s.P.SVG(), s.Open)})
+			ms = append(ms, core.Mismatch{Signature: "receiver-mutated", Detail: fmt.Sprintf("Settle(%s) changed its receiver: P=%s open=%v", name, s.svg(), s.Open)})
 		}
 		for pass, out := range []*canvas.Path{r, r2} {
 			cs, err := oracle.FlattenData(out.Data(), 8)
@@ -183,24 +197,27 @@ func exec(s *Scenario, guard bool) (ms []core.Mismatch) {
 						sig = what + "-orientation+" + s.tag() // region right under EvenOdd but winding not in {0,1}: contour orientation
 					}
 					ms = append(ms, core.Mismatch{Signature: sig, Detail: fmt.Sprintf("P=%s open=%v Settle(%s) emb=%s pass=%d: sample (lattice %.3f,%.3f) expected winding %d, result winding %d; result=%s",
-						s.P.SVG(), s.Open, name, s.Emb.Name, pass+1, float64(s.Samples[i][0])/float64(s.S), float64(s.Samples[i][1])/float64(s.S), e, w, out)})
+						s.svg(), s.Open, name, s.Emb.Name, pass+1, float64(s.Samples[i][0])/float64(s.S), float64(s.Samples[i][1])/float64(s.S), e, w, out)})
 				}
 			}
 			for _, c := range cs {
 				if !c.Closed {
-					ms = append(ms, core.Mismatch{Signature: "open-contour-in-result+" + s.tag(), Detail: fmt.Sprintf("P=%s Settle(%s): result has an open sub-path: %s", s.P.SVG(), name, out)})
+					ms = append(ms, core.Mismatch{Signature: "open-contour-in-result+" + s.tag(), Detail: fmt.Sprintf("P=%s Settle(%s): result has an open sub-path: %s", s.svg(), name, out)})
 					break
 				}
 			}
+			if s.CP != nil {
+				continue // flattened curves have thousands of segments: the quadratic crossing test is only run on polygonal scenarios
+			}
 			if n := properCrossings(cs, scale); n > 0 {
-				ms = append(ms, core.Mismatch{Signature: what + "-crossing+" + s.tag(), Detail: fmt.Sprintf("P=%s open=%v Settle(%s) emb=%s pass=%d: %d properly crossing segment pairs in result %s", s.P.SVG(), s.Open, name, s.Emb.Name, pass+1, n, out)})
+				ms = append(ms, core.Mismatch{Signature: what + "-crossing+" + s.tag(), Detail: fmt.Sprintf("P=%s open=%v Settle(%s) emb=%s pass=%d: %d properly crossing segment pairs in result %s", s.svg(), s.Open, name, s.Emb.Name, pass+1, n, out)})
 			}
 		}
 		// settling a settled path leaves the region unchanged: equal areas
 		if len(ms) == 0 {
 			a1, a2 := latgeo.Area(r), latgeo.Area(r2)
 			if math.Abs(a1-a2) > 1e-6*scale*scale*64 {
-				ms = append(ms, core.Mismatch{Signature: "idempotence-area+" + s.tag(), Detail: fmt.Sprintf("P=%s Settle(%s) emb=%s: area %.9g, after second Settle %.9g; %s vs %s", s.P.SVG(), name, s.Emb.Name, a1, a2, r, r2)})
+				ms = append(ms, core.Mismatch{Signature: "idempotence-area+" + s.tag(), Detail: fmt.Sprintf("P=%s Settle(%s) emb=%s: area %.9g, after second Settle %.9g; %s vs %s", s.svg(), name, s.Emb.Name, a1, a2, r, r2)})
 			}
 		}
 	}
@@ -210,7 +227,7 @@ func exec(s *Scenario, guard bool) (ms []core.Mismatch) {
 			// being closed implicitly (feature HasOpenSubpath)
 			ms[i].Signature = "open-subpath-not-implicitly-closed"
 		} else if s.Det {
-			ms[i].Key = ms[i].Signature + "|" + s.P.SVG() + "|" + s.Emb.Name
+			ms[i].Key = ms[i].Signature + "|" + s.svg() + "|" + s.Emb.Name
 		}
 	}
 	return
@@ -244,6 +261,10 @@ func cfg(n, k, nc int, mode string, num int, mc bool) string {
 	return s
 }
 
+func ccfg(n, k, num int) string {
+	return fmt.Sprintf("SPECIFICATION Spec\nCONSTANTS N = %d\n K = %d\n Num = %d\n What = \"settle\"\nINVARIANTS SubdivOK\nCHECK_DEADLOCK FALSE\n", n, k, num)
+}
+
 func hash(s string) uint32 {
 	h := uint32(2166136261)
 	for i := 0; i < len(s); i++ {
@@ -268,7 +289,30 @@ func (d Driver) Run(c *core.Ctx) error {
 
 	var n, nontriv int64
 	var seen sync.Map
-	runGen := func(o tlc.Opts, open, det bool) {
+	runGen := func(o tlc.Opts, open, det bool) { runGenX(c, o, open, det, false, &n, &nontriv, &seen) }
+	runCurved := func(o tlc.Opts) { runGenX(c, o, false, false, true, &n, &nontriv, &seen) }
+	_ = runCurved
+	if c.Thorough() {
+		runGen(tlc.Opts{Module: "BoolOps", Config: cfg(2, 4, 1, "all", 0, false), Timeout: 30 * time.Minute}, false, true) // all 6561 4-point contours on 3x3
+		runGen(tlc.Opts{Module: "BoolOps", Config: cfg(2, 3, 2, "all", 0, false), Timeout: 30 * time.Minute}, false, true) // all pairs of 3-point contours on 3x3 (531441)
+		runGen(tlc.Opts{Module: "BoolOps", Config: cfg(4, 6, 1, "random", 60000, false), Seed: c.Seed, Timeout: 30 * time.Minute}, false, false)
+		runGen(tlc.Opts{Module: "BoolOps", Config: cfg(6, 6, 2, "random", 30000, false), Seed: c.Seed + 1, Timeout: 30 * time.Minute}, false, false)
+		runGen(tlc.Opts{Module: "BoolOps", Config: cfg(3, 5, 1, "random", 300, false), Seed: c.Seed + 2, Timeout: 30 * time.Minute}, true, false)
+		runCurved(tlc.Opts{Module: "CurvedOps", Config: ccfg(4, 3, 20000), Seed: c.Seed + 3, Timeout: 30 * time.Minute})
+		runCurved(tlc.Opts{Module: "CurvedOps", Config: ccfg(5, 2, 20000), Seed: c.Seed + 4, Timeout: 30 * time.Minute})
+	} else {
+		runGen(tlc.Opts{Module: "BoolOps", Config: cfg(2, 4, 1, "all", 0, false)}, false, true)
+		runGen(tlc.Opts{Module: "BoolOps", Config: cfg(4, 6, 1, "random", 8000, false), Seed: c.Seed}, false, false)
+		runGen(tlc.Opts{Module: "BoolOps", Config: cfg(3, 4, 2, "random", 3000, false), Seed: c.Seed + 1}, false, false)
+		runGen(tlc.Opts{Module: "BoolOps", Config: cfg(3, 5, 1, "random", 40, false), Seed: c.Seed + 2}, true, false)
+		runCurved(tlc.Opts{Module: "CurvedOps", Config: ccfg(4, 3, 1500), Seed: c.Seed + 3})
+	}
+	c.Count(0, nontriv, 0)
+	c.SetExtra("paths", n)
+	return nil
+}
+
+func runGenX(c *core.Ctx, o tlc.Opts, open, det, curved bool, n, nontriv *int64, seen *sync.Map) {
 		var hdr Line
 		ch := make(chan []byte, 8192)
 		o.OnLine = func(p []byte) {
@@ -289,24 +333,44 @@ func (d Driver) Run(c *core.Ctx) error {
 					c.Broken("bad scenario line: " + err.Error())
 					return
 				}
-				k := atomic.AddInt64(&n, 1)
+				k := atomic.AddInt64(n, 1)
 				differ := l.F["selfov"]
 				for i := range l.R0 {
 					if l.R0[i] != l.R1[i] {
 						differ = true
 					}
 				}
-				key := l.P.SVG()
+				var lp latgeo.LPath
+				var cp latgeo.CPath
+				var key string
+				if curved {
+					if err := json.Unmarshal(l.P, &cp); err != nil {
+						c.Broken("bad curved path: " + err.Error())
+						return
+					}
+					key = cp.SVG()
+					differ = true
+				} else {
+					if err := json.Unmarshal(l.P, &lp); err != nil {
+						c.Broken("bad path: " + err.Error())
+						return
+					}
+					key = lp.SVG()
+				}
 				if differ {
 					if _, dup := seen.LoadOrStore(key, true); !dup {
-						atomic.AddInt64(&nontriv, 1)
+						atomic.AddInt64(nontriv, 1)
 					}
 				}
-				for _, e := range embsFor(hash(key), c.Thorough()) {
-					s := &Scenario{Kind: "settle", S: hdr.S, Samples: hdr.Samples, P: l.P, Open: open, Det: det, Emb: e, Exp: [4][]int{l.R0, l.R1, l.R2, l.R3}, F: l.F}
+				embs := embsFor(hash(key), c.Thorough())
+				if curved {
+					embs = []latgeo.Emb{latgeo.CurvedEmbeddings[int(hash(key))%len(latgeo.CurvedEmbeddings)]}
+				}
+				for _, e := range embs {
+					s := &Scenario{Kind: "settle", S: hdr.S, Samples: hdr.Samples, P: lp, CP: cp, Open: open, Det: det, Emb: e, Exp: [4][]int{l.R0, l.R1, l.R2, l.R3}, F: l.F}
 					ms := exec(s, false)
 					c.Count(8, 0, 1)
-					if k%20000 == 3 && e.Name == "id" {
+					if k%20000 == 3 {
 						c.Sample(map[string]any{"p": key, "expected_nonzero": l.R0, "expected_evenodd": l.R1})
 					}
 					c.Report(s, ms)
@@ -318,19 +382,3 @@ func (d Driver) Run(c *core.Ctx) error {
 		close(ch)
 		<-done
 	}
-	if c.Thorough() {
-		runGen(tlc.Opts{Module: "BoolOps", Config: cfg(2, 4, 1, "all", 0, false), Timeout: 30 * time.Minute}, false, true) // all 6561 4-point contours on 3x3
-		runGen(tlc.Opts{Module: "BoolOps", Config: cfg(2, 3, 2, "all", 0, false), Timeout: 30 * time.Minute}, false, true) // all pairs of 3-point contours on 3x3 (531441)
-		runGen(tlc.Opts{Module: "BoolOps", Config: cfg(4, 6, 1, "random", 60000, false), Seed: c.Seed, Timeout: 30 * time.Minute}, false, false)
-		runGen(tlc.Opts{Module: "BoolOps", Config: cfg(6, 6, 2, "random", 30000, false), Seed: c.Seed + 1, Timeout: 30 * time.Minute}, false, false)
-		runGen(tlc.Opts{Module: "BoolOps", Config: cfg(3, 5, 1, "random", 300, false), Seed: c.Seed + 2, Timeout: 30 * time.Minute}, true, false)
-	} else {
-		runGen(tlc.Opts{Module: "BoolOps", Config: cfg(2, 4, 1, "all", 0, false)}, false, true)
-		runGen(tlc.Opts{Module: "BoolOps", Config: cfg(4, 6, 1, "random", 8000, false), Seed: c.Seed}, false, false)
-		runGen(tlc.Opts{Module: "BoolOps", Config: cfg(3, 4, 2, "random", 3000, false), Seed: c.Seed + 1}, false, false)
-		runGen(tlc.Opts{Module: "BoolOps", Config: cfg(3, 5, 1, "random", 40, false), Seed: c.Seed + 2}, true, false)
-	}
-	c.Count(0, nontriv, 0)
-	c.SetExtra("paths", n)
-	return nil
-}
